@@ -222,6 +222,70 @@ def sibling_grammars(seed, n):
     return mism, stats
 
 
+def long_source_churn(policy=None):
+    if policy is None:
+        a1, r1 = long_source_churn("release")
+        a2, r2 = long_source_churn("sometimes-nothing")
+        return a1 + a2, r1 + r2
+    """long sources (4 201 characters) that really die between requests: each is a NEW string object of the same length with other
+    content, parsed, dropped, the caches released (clear_caches, or squeezed to one entry) — then the next one; every answer vs a
+    cold twin.  An answer remembered under the ADDRESS of a dead string shows here.  (The grammar looks at the first few characters
+    only, so that the length costs nothing.)"""
+    import gc
+    out = []
+    L = lambda t: ["lit", 0, t]  # noqa: E731
+    g = {"rules": [{"name": "top", "def": ["cat", [["rep", 1, 3, ["alt", 0, [L("ab"), L("ba"), L("a")]]], ["rep", 0, None, L("b")], ["opt", L("c")]]], "excl": None},
+                   {"name": "pre", "def": ["cat", [["opt", L("x")], ["rep", 0, 2, ["ref", "top"]]]], "excl": None}], "alpha": ["a", "b", "c"]}
+    heads = ["abab", "baba", "abba", "aabb", "bbaa", "abbb", "babc", "aaab", "cabc", "abcb", "baab", "bbbb"]
+    reqs = lambda s: ((1, "top", s, 0), (0, "pre", s, 0), (1, "top", s, 1), (0, "top", s, 2))  # noqa: E731
+
+    def doc(h):
+        return "".join([h, "ab" * 2100])[:4201]          # a new string object on every call, always 4 201 characters
+    # reference answers first, on a grammar of its own, every reference source kept alive to the end (nothing is built, defined or
+    # flagged after this point: that would mark every cache stale and hide what this scenario looks for)
+    rcls, robjs = pyimpl.build_grammar(g)
+    cls, objs = pyimpl.build_grammar(g)
+    keep = [doc(h) for h in heads]
+    want = {h: [req_impl(robjs, *q) for q in reqs(s_)] for h, s_ in zip(heads, keep)}
+    runs = reused = 0
+    last_addr = None
+    for k, h in enumerate(heads):
+        for attempt in range(25):
+            s = doc(h)
+            if last_addr is None or id(s) == last_addr or attempt == 24:
+                break
+            del s
+        reused += last_addr is not None and id(s) == last_addr
+        got = [req_impl(objs, *q) for q in reqs(s)]
+        runs += len(got)
+        for q, a_, b_ in zip(reqs(s), got, want[h]):
+            if a_ != b_:
+                out.append({"class": "result", "op": ["req", q[0], q[1], s[:12] + "...", q[3]], "source_length": len(s), "round": k,
+                            "impl": a_[:200], "reference": b_[:200], "what": "a long source parsed after an earlier long source of the same length had been dropped "
+                            "and the caches released", "case": {"grammar": g}})
+                return out, runs
+        last_addr = id(s)
+        del s, q, got
+        # between two sources: nothing at all (the caller just lets go of the string), or the caches released, or squeezed to one entry
+        if policy == "release":
+            if k % 3 == 2:
+                for pc in ParseCache.list():
+                    pc.max_size = 1
+            else:
+                ParseCache.clear_caches()
+        elif k % 4 == 2:
+            for pc in ParseCache.list():
+                pc.max_size = 1
+        elif k % 4 == 3:
+            ParseCache.clear_caches()
+            for pc in ParseCache.list():
+                pc.max_size = None
+        gc.collect()
+    for pc in ParseCache.list():
+        pc.max_size = None
+    return out, runs * 1000 + reused
+
+
 def aborted_by_recursion():
     """a request that runs out of interpreter stack half-way (RecursionError: a runtime limit, not an answer), then the SAME request
     again with enough stack: the second answer must be the one a fresh grammar gives — nothing computed or cached on the way to
@@ -230,9 +294,12 @@ def aborted_by_recursion():
     out = []
     L = lambda t: ["lit", 0, t]  # noqa: E731
     g = {"rules": [{"name": "p", "def": ["cat", [L("("), ["rep", 0, None, ["alt", 0, [["ref", "p"], L("a")]]], L(")")]], "excl": None},
-                   {"name": "w", "def": ["rep", 1, None, ["cat", [["opt", L(" ")], ["ref", "p"]]]], "excl": None}], "alpha": ["(", ")", "a"]}
+                   {"name": "w", "def": ["rep", 1, None, ["cat", [["opt", L(" ")], ["ref", "p"]]]], "excl": None},
+                   # an exclusion whose own check is the deep part: item = anything bracketed EXCEPT a well-nested p
+                   {"name": "item", "def": ["rep", 1, None, ["alt", 0, [L("("), L(")"), L("a")]]], "excl": "p"},
+                   {"name": "items", "def": ["cat", [["ref", "item"], ["opt", L(";")]]], "excl": None}], "alpha": ["(", ")", "a"]}
     src = "(" * 30 + "a" + ")" * 30
-    reqs = [(2, "p", src, 0), (0, "w", " " + src + src, 0), (1, "p", src + "x", 0)]
+    reqs = [(2, "p", src, 0), (0, "w", " " + src + src, 0), (1, "p", src + "x", 0), (2, "items", src + ";", 0), (2, "items", src[1:] + ";", 0)]
     cls0, objs0 = pyimpl.build_grammar(g)
     want = [req_impl(objs0, *q) for q in reqs]
 
@@ -242,8 +309,8 @@ def aborted_by_recursion():
     runs = 0
     hit = 0
     for limit in list(range(64, 200, 9)) + [230, 300]:
-        cls, objs = pyimpl.build_grammar(g)
         for q in reqs:
+            cls, objs = pyimpl.build_grammar(g)          # cold caches for every attempt: the stack runs out where it would for a first request
             sys.setrecursionlimit(limit)
             try:
                 first = deep(40, lambda: req_impl(objs, *q))
@@ -410,8 +477,29 @@ def c13_case(seed, k):
     inputs = gen.gen_inputs(rng, g, n_derived=3, n_mut=2, n_rand=2, maxlen=8)[:8]
     referenced = sorted({x for r in g["rules"] for x in gen.refs_of(r["def"], set())})
     # ONE kind of mutation per case (each kind has its own invalidation site), rotating with the case index
-    kind = ["redefine", "extend", "flag", "exclude", "construct", "mixed", "exclude2", "load_fail", "load_ok", "excluded-target"][k % 10]
+    kind = ["redefine", "extend", "flag", "exclude", "construct", "mixed", "exclude2", "load_fail", "load_ok", "excluded-target", "shared-flag"][k % 11]
     muts = []
+    if kind == "shared-flag":
+        # two rules share ONE definition object (an import under another name); the first-match flag is switched through the one
+        # that no request has gone through yet, the probes go through the other (and through rules above it)
+        alts = [r for r in g["rules"] if r["def"][0] == "alt" and len(r["def"][2]) >= 2]
+        if not alts:
+            g["rules"][0]["def"] = ["alt", 0, [g["rules"][0]["def"], ["lit", 0, "zz"], ["lit", 0, "z"]]]
+            alts = [g["rules"][0]]
+        src = rng.choice(alts)
+        x, y = rng.choice(g["alpha"]), rng.choice(g["alpha"])
+        # alternatives where first-match and longest-match differ, tried first
+        src["def"] = ["alt", 0, [["lit", 1, x], ["lit", 1, x + y]] + src["def"][2]]
+        al = "Al" + str(len(g["rules"]))
+        g["rules"].append({"name": al, "def": json.loads(json.dumps(src["def"])), "excl": None, "alias_of": src["name"]})
+        # ... and a rule that reaches the alias through a repetition (that is where results are remembered)
+        g["rules"].append({"name": "Host" + str(len(g["rules"])), "def": ["cat", [["rep", 1, None, ["ref", al]], ["opt", ["lit", 1, y]]]], "excl": None})
+        if not gen.wf(g):
+            return c13_case(seed, k + 100003)
+        inputs = [x + y, x + y + y, x + x + y, x + y + x + y + y, x] + gen.gen_inputs(rng, g, n_derived=3, n_mut=2, n_rand=2, maxlen=8)[:5]
+        warm = [r["name"] for r in g["rules"] if r["name"] != src["name"]]
+        return {"seed": seed, "index": k, "grammar": g, "inputs": inputs, "muts": [["flag", src["name"], 1]], "clear_between": False,
+                "warm_only": warm}
     if kind == "excluded-target" and len(names) >= 2:
         # an exclusion "host excludes guest" is in force from the start; the mutation then changes the EXCLUDED rule (or a rule
         # below it): every verdict "this text is / is not excluded" obtained during the warm-up is out of date afterwards
@@ -425,9 +513,18 @@ def c13_case(seed, k):
                 break
         else:
             nd = ["lit", 0, "a"]
+        if rng.random() < 0.35 and len(names) >= 3:
+            # the excluded rule is, at the time the exclusion is registered, a bare alias of a third rule; it is what changes later
+            third = rng.choice([x for x in names if x not in (host, guest)])
+            for r in g["rules"]:
+                if r["name"] == guest:
+                    r["def"] = ["ref", third]
+            if not gen.wf(g):
+                return c13_case(seed, k + 100003)
         muts.append([rng.choice(["redefine", "extend"]), guest, nd])
         inputs = gen.gen_inputs(rng, g, n_derived=3, n_mut=2, n_rand=2, maxlen=8)[:8]
-        return {"seed": seed, "index": k, "grammar": g, "inputs": inputs, "muts": muts, "clear_between": rng.random() < 0.3}
+        return {"seed": seed, "index": k, "grammar": g, "inputs": inputs, "muts": muts, "clear_between": rng.random() < 0.3,
+                "warm_only": (rng.sample(names, max(1, len(names) // 2)) if rng.random() < 0.4 else None)}
     for _ in range(rng.randint(1, 2)):
         kd = rng.choice(["redefine", "extend", "flag", "exclude", "construct"]) if kind == "mixed" else kind
         tgt = rng.choice(referenced) if referenced and rng.random() < 0.7 else rng.choice(names)
@@ -501,7 +598,8 @@ def apply_mut(cls, objs, m, rng):
 
 def final_ast(g, muts):
     """the grammar in its final state, as an AST (for the twin)"""
-    rules = {r["name"]: {"name": r["name"], "def": json.loads(json.dumps(r["def"])), "excl": r.get("excl")} for r in g["rules"]}
+    rules = {r["name"]: dict({"name": r["name"], "def": json.loads(json.dumps(r["def"])), "excl": r.get("excl")},
+                             **({"alias_of": r["alias_of"]} if r.get("alias_of") else {})) for r in g["rules"]}
     for m in muts:
         r = rules[m[1]]
         if m[0] in ("redefine", "construct", "load_fail", "load_ok"):
@@ -511,11 +609,102 @@ def final_ast(g, muts):
         elif m[0] == "flag":
             if r["def"][0] == "alt":
                 r["def"][1] = m[2]
+                for r2 in rules.values():
+                    if r2.get("alias_of") == m[1] and r2["def"][0] == "alt":
+                        r2["def"][1] = m[2]
         elif m[0] == "exclude":
             r["excl"] = m[2]
         elif m[0] == "exclude2":
             r["excl2"] = [m[2], m[3]]
     return {"rules": list(rules.values()), "alpha": g["alpha"]}
+
+
+META_MUT = r'''
+import json, sys
+import abnf.parser as P
+order = sys.argv[1]            # "warm-first": parse, change the rule, parse again;  "change-first": change the rule, parse
+out = {}
+def load_ok(text):
+    K = type("K", (P.Rule,), {})
+    try:
+        K.load_grammar(text); return "OK:" + ",".join(sorted(r.name for r in K.rules()))
+    except P.ParseError:
+        return "ParseError"
+    except Exception as e:
+        return "EXC:" + type(e).__name__
+def ends(rule, s):
+    try:
+        return sorted(m.start for m in rule.lparse(s, 0))
+    except P.ParseError:
+        return "ParseError"
+T1 = 'my_rule = "a" other_rule\r\nother_rule = "b"\r\n'
+T2 = 'r = "a" ; caf\u00e9\r\n'
+L1 = " \x0b \r\n \x0b"
+if order == "warm-first":
+    out["pre"] = [load_ok(T1), load_ok(T2), ends(P.Rule("LWSP"), L1), ends(P.ABNFGrammarRule("comment"), "; caf\u00e9\r\n")]
+# public-API changes of rules that sit below repetitions built when the library was imported
+P.ABNFGrammarRule.create('rulename = ALPHA *( ALPHA / DIGIT / "-" / "_" )')
+P.ABNFGrammarRule.create('comment = ";" *( WSP / VCHAR / %x80-10FFFF ) CRLF')
+P.Rule.create('WSP = SP / HTAB / %x0B')
+out["post"] = [load_ok(T1), load_ok(T2), ends(P.Rule("LWSP"), L1), ends(P.ABNFGrammarRule("comment"), "; caf\u00e9\r\n")]
+json.dump(out, sys.stdout)
+'''
+
+
+def meta_mutation():
+    """rules of the library's OWN grammars (the ABNF reader's rulename / comment, core WSP) changed through the public API: what was
+    parsed before the change must not be remembered afterwards.  Two fresh interpreters: one parses, changes, parses again; the other
+    changes first; their final answers must be the same."""
+    res = {}
+    for order in ("warm-first", "change-first"):
+        p = subprocess.run([sys.executable, "-c", META_MUT, order], capture_output=True, text=True, check=False,
+                           env=dict(os.environ, PYTHONHASHSEED="0"))
+        if p.returncode != 0:
+            return [{"class": "stale-or-wrong", "what": f"meta-rule mutation scenario ({order}) failed: " + p.stderr.strip().split("\n")[-1][:300], "case": {"scenario": "meta-mutation"}}]
+        res[order] = json.loads(p.stdout)
+    if res["warm-first"]["post"] != res["change-first"]["post"]:
+        return [{"class": "stale-or-wrong", "what": "after the ABNF reader's rulename/comment rules and core WSP were changed through the public API, a process that "
+                 "had parsed the probes BEFORE the change answers differently from one that had not",
+                 "before_the_change": res["warm-first"].get("pre"), "parsed_before_then_changed": res["warm-first"]["post"], "changed_first": res["change-first"]["post"],
+                 "case": {"scenario": "meta-mutation"}}]
+    return []
+
+
+def two_thread_mutation():
+    """a long-lived thread parses, the grammar is changed, ANOTHER thread parses once, then the first thread asks again (bounded and
+    unbounded caches): the change must reach every thread — staleness is a property of the cache, not of whoever looked first"""
+    import threading
+    out = []
+    L = lambda t: ["lit", 0, t]  # noqa: E731
+    scen = [({"rules": [{"name": "top", "def": ["rep", 1, None, ["ref", "item"]], "excl": None}, {"name": "item", "def": L("a"), "excl": None}], "alpha": ["a", "b"]},
+             (1, "top", "aab", 0), 'item = "a" / "b"', ["alt", 0, [L("a"), L("b")]]),
+            ({"rules": [{"name": "top", "def": ["cat", [["opt", ["ref", "item"]], L("c")]], "excl": None}, {"name": "item", "def": L("a"), "excl": None}], "alpha": ["a", "b", "c"]},
+             (2, "top", "bc", 0), 'item = "b"', L("b"))]
+    runs = 0
+    for g, q, text, newdef in scen:
+        fa = {"rules": [dict(r, **({"def": newdef} if r["name"] == "item" else {})) for r in g["rules"]], "alpha": g["alpha"]}
+        tcls, tobjs = pyimpl.build_grammar(fa)
+        want = req_impl(tobjs, *q)
+        for limit in (None, 1, 2, 8):
+            cls, objs = pyimpl.build_grammar(g)
+            d = pyimpl.Dump()
+            d.grammar([objs[r["name"]] for r in g["rules"]])
+            for rep in d.keep:
+                rep.lparse_cache.max_size = limit
+            req_impl(objs, *q)                      # this (main) thread has parsed under the OLD grammar
+            cls.create(text)                        # the change
+            got = {}
+            th = threading.Thread(target=lambda: got.setdefault("other", req_impl(objs, *q)))
+            th.start()
+            th.join()
+            got["first"] = req_impl(objs, *q)       # ... and asks again after another thread has been there
+            runs += 1
+            for who in ("other", "first"):
+                if got[who] != want:
+                    out.append({"class": "stale-or-wrong", "what": f"after a grammar change, the {'other' if who == 'other' else 'long-lived first'} thread still gets the old answer "
+                                f"(cache limit {limit})", "request": list(q), "mutation": text, "got": got[who][:200], "new_grammar_says": want[:200], "case": {"grammar": g}})
+                    return out, runs
+    return out, runs
 
 
 def run_c13(cases):
@@ -553,7 +742,7 @@ def run_c13(cases):
                         ParseCache.clear_caches()
                         stats["clear_between"] = stats.get("clear_between", 0) + 1
                     for s in c["inputs"]:          # warm-up: fills the caches under the OLD grammar
-                        for n in names:
+                        for n in (c.get("warm_only") or names):
                             for i in range(len(s) + 1):
                                 before[(n, s, i)] = pyimpl.run_lparse(objs[n], s, i)
             for m in c["muts"]:
@@ -583,7 +772,7 @@ def run_c13(cases):
             lines.append(ln)
             plan.append(row)
             stats["probes"] += 1
-            stats["changed_answers"] += row[4] != before[(row[1], row[2], row[3])]
+            stats["changed_answers"] += row[4] != before.get((row[1], row[2], row[3]), row[4])
     outs = driver(lines) if lines else []
     mism = []
     distinct = set()
@@ -659,8 +848,10 @@ class Stepper:
         cache_codes = self.cache_codes
         st = self
 
+        parser_file = P.__file__
+
         def tracer(frame, event, arg):
-            if frame.f_code in cache_codes:
+            if frame.f_code in cache_codes or (line_level == "all" and frame.f_code.co_filename == parser_file):
                 def local(frame, event, arg):
                     if event == "line":
                         st.gate()
@@ -846,6 +1037,47 @@ def lockstep_fixed(stats, mism):
                             return
 
 
+def lockstep_everywhere(stats, mism, full=False):
+    """two threads, the same grammar objects, advancing in lock step at EVERY source line of the parser module (not only inside the cache
+    methods): whatever a parser object keeps between two of its own statements — a shared list being re-sorted, a memo made of two
+    fields, a scratch attribute — is seen half-done by the other thread.  Requests: the same warm request with more than 256
+    cached matches; and two different inputs through the same long case-insensitive literal."""
+    L = lambda t: ["lit", 0, t]  # noqa: E731
+    g = {"rules": [{"name": "word", "def": ["rep", 1, None, ["range", 0x61, 0x7A]], "excl": None},
+                   {"name": "line", "def": ["cat", [["ref", "word"], L("!")]], "excl": None},
+                   {"name": "kw", "def": ["cat", [L("Content-Disposition-X"), ["opt", L(":")]]], "excl": None},
+                   {"name": "kws", "def": ["rep", 1, 3, ["cat", [["ref", "kw"], ["opt", L(" ")]]]], "excl": None}], "alpha": ["a", "!"]}
+    long_in = "a" * 290 + "!"
+    pairs = [((2, "line", long_in, 0), (2, "line", long_in, 0), True),
+             ((1, "word", long_in, 0), (2, "line", long_in, 0), True),
+             ((2, "kws", "content-disposition-x: CONTENT-DISPOSITION-X", 0), (2, "kws", "content-dispositiom-x: CONTENT-DISPOSITION-X", 0), False),
+             ((2, "kw", "CONTENT-disposition-X:", 0), (2, "kw", "CONTENT-disposition-Y:", 0), False)]
+    cls0, objs0 = pyimpl.build_grammar(g)
+    for pi, (qa, qb, warm) in enumerate(pairs):
+        if not full and pi == 1:
+            continue
+        want = [req_impl(objs0, *qa), req_impl(objs0, *qb)]
+        for offset in ((0, 1, 2) if full else ((0,) if warm else (0, 1))):
+            cls, objs = pyimpl.build_grammar(g)
+            if warm:
+                req_impl(objs, *qa)
+            stp = Stepper()
+            stp.install()
+            try:
+                sched = [0] * offset + [0, 1] * 60000
+                res, steps = stp.run([(lambda: req_impl(objs, *qa)), (lambda: req_impl(objs, *qb))], sched, line_level="all")
+            finally:
+                stp.restore()
+            stats["lockstep_everywhere_schedules"] = stats.get("lockstep_everywhere_schedules", 0) + 1
+            stats["lockstep_everywhere_steps"] = stats.get("lockstep_everywhere_steps", 0) + steps
+            for q, r, w in zip((qa, qb), res, want):
+                if r != w:
+                    mism.append({"class": "lock-step(every line of the parser module)", "request": [q[0], q[1], q[2][:50], q[3]],
+                                 "other_request": [(qb if q is qa else qa)[1], (qb if q is qa else qa)[2][:50]], "phase_shift": offset,
+                                 "got": (r or "None")[:300], "sequential": w[:300], "case": {"grammar": g}})
+                    return
+
+
 def run_c17(cases, exhaustive_upto=7):
     mism, stats = [], {"schedules": 0, "steps": 0, "exhaustive_cases": 0, "random_schedules": 0, "requests": 0,
                        "generator_scripts": 0, "stress_runs": 0}
@@ -853,6 +1085,7 @@ def run_c17(cases, exhaustive_upto=7):
     line_level_fixed(stats, mism)
     mass_suspension(stats, mism)
     lockstep_fixed(stats, mism)
+    lockstep_everywhere(stats, mism, full=len(cases) >= 100)
     for c in cases:
         g = c["grammar"]
         # sequential reference on a cold twin
@@ -1056,6 +1289,9 @@ def main():
             m2, runs = aborted_by_recursion()
             stats["aborted_by_recursion_runs"] = runs
             mism = m2 + mism
+            m4, runs4 = long_source_churn()
+            stats["long_source_churn_requests"] = runs4
+            mism = m4 + mism
         m3, st3 = sibling_grammars(a.seed, max(3, a.n // 4))
         stats.update(st3)
         mism = m3 + mism
@@ -1074,6 +1310,12 @@ def main():
     elif a.mode == "c13":
         cases = [c13_case(a.seed, k) for k in range(a.n)]
         plan, mism, stats, distinct = run_c13(cases)
+        if a.seed % 100 == 0:
+            mism = meta_mutation() + mism
+            stats["meta_mutation_scenarios"] = 2
+            m5, runs5 = two_thread_mutation()
+            stats["two_thread_mutation_runs"] = runs5
+            mism = m5 + mism
         samples = [{"grammar": c["grammar"]["rules"], "mutations": c["muts"], "probe": [n, s, i], "observed": impl[:300]}
                    for c, n, s, i, impl, twin in plan[:: max(1, len(plan) // 4)][:4]]
         ev = len(plan)
